@@ -484,6 +484,51 @@ func ruleW2(c *Ctx, id string) {
 		}
 		R.Check(okLim, id, "dir.mkDcache|enumerates the whole directory", P.Pos(mk.Pos()), "the name cache is rebuilt by dir.Apply from offset 0 with a size limit no directory can reach", "Apply(dip, op, 0, dip.Size, >=1e8, ...)", "the cache is rebuilt by a scanner that can stop early (page limits): names at the end of a large directory are missing after a restart or eviction")
 	}
+	// the limits mkDcache passes cannot be reached: dircount = dip.Size and Apply charges less than
+	// DIRENTSZ bytes per entry; maxcount exceeds what NInode entries can cost
+	if apply != nil {
+		direntsz := constOfPkg(P, "dir", "DIRENTSZ")
+		maxname := constOfPkg(P, "dir", "MAXNAMELEN")
+		baggage := constOfPkg(P, "dir", "entryplus3Baggage")
+		ninode := constOfPkg(P, jrnlPath+"/common", "NINODEBITMAP") * constOfPkg(P, jrnlPath+"/common", "NBITBLOCK")
+		// per-entry constant added to the dircount accumulator: Convert(c + len(name)) added to the phi compared with param dircount
+		var dirc int64 = -1
+		var dcp *ssa.Parameter
+		for _, p := range apply.Params {
+			if p.Name() == "dircount" {
+				dcp = p
+			}
+		}
+		for _, br := range branches(apply) {
+			if br.Cond.X == nil || br.Cond.Y == nil || dcp == nil || stripConv(br.Cond.Y) != ssa.Value(dcp) {
+				continue
+			}
+			// br.Cond.X = dirbytes_new = phi + conv(c + len)
+			if add, ok := stripConv(br.Cond.X).(*ssa.BinOp); ok && add.Op == token.ADD {
+				for _, opnd := range []ssa.Value{add.X, add.Y} {
+					if inner, ok := stripConv(opnd).(*ssa.BinOp); ok && inner.Op == token.ADD {
+						if k, isk := constInt(inner.X); isk {
+							dirc = k
+						} else if k, isk := constInt(inner.Y); isk {
+							dirc = k
+						}
+					}
+				}
+			}
+		}
+		calls := P.CallsIn(mk, funcIs(apply))
+		sizeArg := false
+		var maxc int64 = -1
+		if len(calls) == 1 {
+			n, fl, _, _ := loadedField(argN(calls[0], 3))
+			sizeArg = n == c.V.Inode && fl == "Size"
+			maxc, _ = constIntDeep(argN(calls[0], 4))
+		}
+		okD := sizeArg && dirc >= 0 && dirc+maxname < direntsz
+		R.Check(okD, id, "dir.mkDcache|dircount limit unreachable", P.Pos(mk.Pos()), fmt.Sprintf("mkDcache passes dircount = dip.Size (entries*%d) and Apply charges %d + len(name) <= %d < %d per entry, so the rebuild cannot stop early", direntsz, dirc, dirc+maxname, direntsz), "constant arithmetic on the code's own constants", fmt.Sprintf("Apply charges %d + len(name) per entry against dircount = dip.Size: with names of %d bytes that is >= %d per %d-byte slot, the rebuild of the name cache stops before the end of the directory (names at the end disappear after a restart or eviction)", dirc, maxname, direntsz, direntsz))
+		okM := maxc > 0 && baggage > 0 && maxc > 64+ninode*(baggage+maxname)
+		R.Check(okM, id, "dir.mkDcache|maxcount limit unreachable", P.Pos(mk.Pos()), fmt.Sprintf("maxcount %d exceeds 64 + NInode(%d) * (%d + %d)", maxc, ninode, baggage, maxname), "constant arithmetic", "the rebuild of the name cache can stop at maxcount for a directory the inode table allows")
+	}
 	// mkDcache: callback passes name/inum/off through unchanged
 	for _, b := range mk.Blocks {
 		for _, in := range b.Instrs {
